@@ -179,7 +179,7 @@ func (db *DB) processFollowers(stop <-chan interface{}) {
 		}
 
 		newlyJoinedStreams[f.Stream] = true
-		verifJoined(db, f.Stream)
+		verifJoined(db, f.Stream, f.FollowerID)
 	}
 
 	defer func() {
